@@ -65,6 +65,8 @@ impl BatchStarkProver {
         ensures r matches Ok(p) ==> p.traces_of@ == traces.of@ && p.prep_of@ == data.for_circuit@ && p.cfg@ == self.cfg@ && p.packing@ == self.packing@
     { unimplemented!() }
 }
+/// the backend's non_primitive_provers(ext_degree) list, which build_verifier_circuit hands to verify_p3_batch_proof_circuit, is entry for entry the proof's non_primitives list
+pub uninterp spec fn next_layer_expects_the_tables_of(p: &BatchStarkProof) -> bool;
 pub struct RecursionOutput(pub BatchStarkProof, pub RcData);
 /// a layer output is coherent when proof, preprocessed data and configuration all belong to the call: only then does it verify like an uncached one
 pub open spec fn coherent(out: &RecursionOutput, c: &Circuit, config: &Cfg) -> bool {
@@ -293,6 +295,9 @@ def build():
     ir = u.extract(R, r'impl<SC> RecursionOutput<SC>', 'into_recursion_input', 'RecursionOutput::into_recursion_input')
     ir.set_sig('R11', "fn into_recursion_input(&self) -> RecursionInput<'_>")
     ir.rewrite_re('R6', r'vec!\[vec!\[\]; num_tables\]', 'empty_rows(num_tables)', min_count=1)
+    # C17 (open finding): nothing in the recursion input says which non-primitive tables the child proof really has; the next layer's verifier matches the proof's entries BY COUNT AND POSITION against
+    # the backend's full prover list, so a layer that leaves one of the backend's tables empty (recompose disabled, an unused extra Poseidon2 table) cannot be chained
+    ir.ensures('H_the_next_layer_expects_exactly_the_tables_this_proof_carries', 'next_layer_expects_the_tables_of(&self.0)')
     ir.ensures('the_next_layer_verifies_this_proof_against_the_common_data_bound_inside_it_with_no_table_public_inputs',
                '''ret matches RecursionInput::BatchStark { proof, common_data, table_public_inputs } && *proof == self.0 && *common_data == self.0.stark_common
                 && table_public_inputs@.len() == self.0.proof.opened_values.instances@.len() && forall|i: int| 0 <= i < table_public_inputs@.len() ==> (#[trigger] table_public_inputs@[i])@.len() == 0''')
